@@ -1,0 +1,26 @@
+//go:build verif
+
+package client
+
+import "sync/atomic"
+
+// Verification pause points. Only compiled with the "verif" build tag; used by
+// the /verif harness to order the monitor goroutine and the notification
+// handlers deterministically.
+
+var verifHook atomic.Value // of func(c Client, point string)
+
+// SetVerifHook installs (or, with nil, removes) the function called at every
+// verification point. The function may block.
+func SetVerifHook(f func(c Client, point string)) {
+	if f == nil {
+		f = func(Client, string) {}
+	}
+	verifHook.Store(f)
+}
+
+func verifPoint(o *ovsdbClient, point string) {
+	if f, ok := verifHook.Load().(func(c Client, point string)); ok && f != nil {
+		f(o, point)
+	}
+}
